@@ -697,6 +697,12 @@ def sel_encode(ctx, f, loop, s, deg, sh, state, acc):
         return ('opaque', 'no state update on path')
     c = classify_sel(ctx, f, col, state, acc)
     if c is None:
+        for x in walk_term(col):
+            if is_call(x, 'numpy.argsort'):
+                p = classify_perm(ctx, f, x, state, acc)
+                if p is not None and p[0] == 'dev':
+                    return ('dev', p[1] + ' (the ranked column is then indexed by the live arcs / the digit, so a digit can '
+                                          'select an arc that does not exist)')
         return ('opaque', show(col))
     if c[0] == 'dev':
         return c
@@ -1136,3 +1142,32 @@ def r_vtuse(ctx):
               'the check test dominates %d walk steps / returns' % len(targets),
               'statement at line %s is reachable without passing the check comparison'
               % (bad[0].lineno if bad else '?'), inputs='corrupted strands decoded with the original check')
+
+
+def r_loop_test(ctx):
+    """C04: the coder loops of encode end exactly when the message is consumed"""
+    run = ctx.run
+    run.rule('R-TIGHT', "encode's normal-mode loop runs exactly while the running quotient is not \"0\" and its fast-mode loop "
+                        "exactly while the cursor is below the message length: no further disjunct keeps the walk going after "
+                        "the message is consumed (the last nucleotide is information-carrying)")
+    f = ctx.p.func('dsw.spiderweb.encode')
+    for loop in coder_loops(ctx, f):
+        head = f.nodes[loop.hid]
+        if head.kind != 'while':
+            run.undecided('R-TIGHT', f, '%s:loop-test' % loop.mode, head.lineno, 'coder loop is not a while loop')
+            continue
+        t = f.term(head.ast, head)
+        atoms = flatten_cond(t, True)
+        ok = False
+        if len(atoms) == 1:
+            a, pol = atoms[0]
+            if loop.mode == 'normal':
+                ok = a[0] == 'cmp' and a[1] == '==' and a[3] == ('c', '0') and a[2][0] == 'v' and not pol
+            else:
+                ok = a[0] == 'cmp' and a[1] == '<' and pol and a[2][0] == 'v' and is_call(a[3], 'builtins.len') and \
+                    a[3][2] == (('v', 'binary_message', 'P'),)
+        run.check(ok, 'R-TIGHT', f, '%s:loop-ends-when-message-consumed' % loop.mode, head.lineno,
+                  'the loop test is exactly the message-consumed test',
+                  "the %s-mode loop of encode runs while %s: the walk can continue (or stop) independently of the message "
+                  "being consumed, so the strand may end on a nucleotide that carries no information" % (loop.mode, show(t)[:100]),
+                  inputs='graphs with out-degree-1 vertices (threshold 1)')
